@@ -1436,6 +1436,16 @@ func init() {
 				cfg := cfg
 				sh = append(sh, vShard{Name: "builders/" + strings.ReplaceAll(cfg.String(), " ", ","), Run: func(c *vCtx) { vVecBuilderShard(c, cfg, bdepth) }})
 			}
+			// very large flat instances (beyond 2^15 and, thorough, 2^16 stored vectors)
+			huge := []int{33000}
+			if tier == "thorough" {
+				huge = []int{33000, 70000}
+			}
+			for _, n := range huge {
+				n := n
+				hcfg := vVecCfg{Kind: "flat", Metric: Euclidean, Dim: 2}
+				sh = append(sh, vShard{Name: fmt.Sprintf("large/huge/%d/%s", n, strings.ReplaceAll(hcfg.String(), " ", ",")), Run: func(c *vCtx) { vKindLarge(c, hcfg, []int{n}, nil) }})
+			}
 			for _, cfg := range vSweepCfgs() {
 				cfg := cfg
 				sh = append(sh, vShard{Name: "sweep/" + strings.ReplaceAll(cfg.String(), " ", ","), Run: func(c *vCtx) { vKindSweep(c, cfg, maxN, nil) }})
